@@ -355,6 +355,10 @@ func (g *Gen) genMarketResolve() Op {
 		return g.genMarketAdd()
 	}
 	status := pick(g.r, []int64{5, 5, 5, 5, 3, 4})
+	if g.chance(0.04) {
+		status = pick(g.r, []int64{0, 6, 7, 100, 2, 1}) // not a resolution (undefined enum numbers included)
+		g.stats["resolve_with_non_resolution_status"]++
+	}
 	var winners []int64
 	if status == 5 {
 		winners = []int64{pick(g.r, m.odds)}
@@ -650,6 +654,15 @@ func (g *Gen) genWager() Op {
 	if g.chance(0.02) {
 		all = append(all, all[0]) // duplicate entry (same uid): map collapses it
 	}
+	if g.chance(0.04) && len(all) > 1 {
+		// same number of outcomes, but one that is NOT the selected one is replaced by a foreign uid: the list does not match the market
+		j := g.r.Intn(len(all))
+		if all[j].Odds == sel {
+			j = (j + 1) % len(all)
+		}
+		all[j].Odds = m.uid*10 + 7
+		g.stats["wager_foreign_outcome_same_count"]++
+	}
 	sc := g.scale()
 	amt := sc + g.r.Int63n(sc*2+1)
 	if g.chance(0.6) {
@@ -778,7 +791,23 @@ func (g *Gen) genSubCreate() Op {
 }
 
 func (g *Gen) genSubTopUp() Op {
-	return Op{Kind: "STOP", Signer: g.user(), Owner: g.subOwner(), Locks: g.locks()}
+	o := Op{Kind: "STOP", Signer: g.user(), Owner: g.subOwner(), Locks: g.locks()}
+	// a top-up naming an unlock time the subaccount already has an entry for (refused: ErrLockedBalanceExists) - the time locks of
+	// the earlier tranches must not move (C11)
+	if o.Owner >= 0 && o.Owner < int64(len(g.c.Acc)) && g.chance(0.25) {
+		ctx := g.c.Ctx()
+		if sa, ok := g.c.App.SubaccountKeeper.GetSubaccountByOwner(ctx, g.c.Acc[o.Owner].Addr); ok {
+			lbs, _ := g.c.App.SubaccountKeeper.GetBalances(ctx, sa, 0)
+			if len(lbs) > 0 && len(o.Locks) > 0 {
+				lb := pick(g.r, lbs)
+				if int64(lb.UnlockTS) >= g.c.Time {
+					o.Locks[0][0] = bi(int64(lb.UnlockTS))
+					g.stats["topup_existing_unlock_time"]++
+				}
+			}
+		}
+	}
+	return o
 }
 
 func (g *Gen) genSubWithdraw() Op { return Op{Kind: "SWDU", Signer: g.subOwner()} }
@@ -1008,6 +1037,62 @@ func (g *Gen) genVote() Op {
 	return Op{Kind: "VOTE", Signer: g.user(), Tk: tk, VoterIdx: vi, PropID: pid, Vote: vote}
 }
 
+// longShot scripts the situation in which a backing part has stake 0 but a positive payout: a new market, a minimal deposit at the head
+// of the queue, a large one behind it, and a bet at odds so long that the head's whole offer is worth less than half a token of stake;
+// then (sometimes) the small depositor withdraws everything, and the market is resolved, mostly with the long shot winning.
+func (g *Gen) longShot() (Op, bool) {
+	cfg := g.c.Cfg
+	minDep := cfg.House.MinDeposit.Int64()
+	fee := cfg.House.HouseParticipationFee.MulInt64(minDep).RoundInt64()
+	liq := minDep - fee
+	minBet := cfg.Bet.Constraints.MinAmount.Int64()
+	stake := minBet - cfg.Bet.Constraints.Fee.Int64()
+	if liq <= 0 || liq > 2000 || stake <= 0 || minBet > 200000 || cfg.Orderbook.MaxOrderBookParticipations < 2 {
+		return Op{}, false
+	}
+	oddsInt := 2*liq + 3 + int64(g.r.Intn(40)) // (odds - 1) / 2 > liq: the head's stake share rounds to 0
+	big2 := (stake*oddsInt + 1000) * 3
+	if big2 > cfg.Balance/2 {
+		return Op{}, false
+	}
+	uid := g.nextMkt
+	g.nextMkt++
+	n := 2 + g.r.Intn(2)
+	var odds []int64
+	for i := 0; i < n; i++ {
+		odds = append(odds, uid*10+int64(i))
+	}
+	sel := odds[g.r.Intn(n)]
+	a, b, c := g.user(), g.user(), g.user()
+	lt := func() Ticket { return Ticket{Signer: int64(g.c.LeaderKey()), Exp: g.c.Time + 4000} }
+	ky := func(x int64) Kyc { return Kyc{Ignore: false, Approved: true, ID: x} }
+	var all []OddsMult
+	for _, o := range odds {
+		all = append(all, OddsMult{Odds: o, Mult: decFromStr("1")})
+	}
+	ov := new(big.Int).Mul(big.NewInt(oddsInt), decFromStr("1"))
+	seq := []Op{
+		{Kind: "DEP", Signer: a, Tk: lt(), Mkt: uid, Amount: bi(minDep), Ky: ky(a), Depositor: -1},
+		{Kind: "DEP", Signer: b, Tk: lt(), Mkt: uid, Amount: bi(big2), Ky: ky(b), Depositor: -1},
+		{Kind: "WAG", Signer: c, Tk: lt(), BetUID: g.nextBet, Amount: bi(minBet), SelMkt: uid, SelOdds: sel, OddsVal: ov,
+			Mult: decFromStr("1"), Ky: ky(c), OddsType: 1, AllOdds: all},
+	}
+	g.nextBet++
+	if g.chance(0.5) {
+		seq = append(seq, Op{Kind: "WDR", Signer: a, Tk: lt(), Mkt: uid, Pidx: 1, Mode: 1, Amount: bi(0), Ky: ky(a), Depositor: -1})
+	}
+	if g.chance(0.85) {
+		w := sel
+		if g.chance(0.25) {
+			w = odds[(g.r.Intn(n))]
+		}
+		seq = append(seq, Op{Kind: "MRES", Signer: g.user(), Tk: lt(), UID: uid, Rts: g.c.Time, Status: 5, Winners: []int64{w}})
+	}
+	g.pending = append(g.pending, seq...)
+	g.stats["long_shot_script"]++
+	return Op{Kind: "MADD", Signer: g.user(), Tk: lt(), UID: uid, Start: g.c.Time - 5, End: g.c.Time + 60000, Status: 1, Odds: odds}, true
+}
+
 func (g *Gen) HasPending() bool { return len(g.pending) > 0 }
 
 // NextTx draws one transaction according to the profile.
@@ -1023,6 +1108,11 @@ func (g *Gen) NextTx() Op {
 	}
 	if len(g.okTix) > 0 && g.chance(0.07) {
 		return g.replayTicket()
+	}
+	if (g.profile == "tiny" && g.chance(0.03)) || ((g.profile == "bet" || g.profile == "sub") && g.chance(0.012)) {
+		if o, ok := g.longShot(); ok {
+			return o
+		}
 	}
 	am := len(g.activeMarkets())
 	ws := []w{{g.genMarketAdd, 4}, {g.genMarketUpdate, 2}, {g.genMarketResolve, 3}, {g.genDeposit, 14}, {g.genWithdraw, 6},
